@@ -20,4 +20,13 @@ PROPS = {
    scope=lambda t: "every (a,b) in S(w,r)^2 x {+,-,+=,-=} x call-site shapes {out-of-line, loop, 36 constants as either operand, self, 8 caller guards} x build configurations; complete within that bound, not over all 2^128 pairs",
    assumptions=COMMON_ASSUMPTIONS + ["a defect needing more than w significant bits in BOTH operands and no constant operand of the listed set can escape"],
    deadline={"quick": 600, "thorough": 3000}),
+ "C06": dict(cfgs=quick8,
+   scope=lambda t: "six comparison operators on every pair of (S(w,r) u {+NaN,-NaN,INT64_MIN})^2; isnan/unary minus/abs on S(w,r) u both NaNs u every raw value of a dense interval around 0; complete within that bound",
+   assumptions=COMMON_ASSUMPTIONS),
+ "C15": dict(cfgs=quick8,
+   scope=lambda t: "floor and ceil on every member of S(w,r) with |x| < 2^47-1 and on every raw value of a dense interval around 0 (all 16-bit fraction patterns, both signs)",
+   assumptions=COMMON_ASSUMPTIONS),
+ "C18": dict(cfgs=quick8,
+   scope=lambda t: "x<<r and x>>r for x in S(w,r), r in {INT_MIN, INT_MIN+1, -2^30, -65536, -130..63}, plus every count of a dense range down to INT_MIN (thorough) for 16 representative x; & on S^2",
+   assumptions=COMMON_ASSUMPTIONS + ["shift counts above 63 are outside the property's domain and are not executed"]),
 }
